@@ -105,6 +105,26 @@ func fieldCases() []fieldCase {
 		{Name: "fail_overlap_map", Decls: "type PFXPerson struct {\n\tName string\n\tCode string\n}\ntype PFXFlat struct {\n\tName string\n\tZip string\n}\ntype PFXIn struct{ Lead PFXPerson }\ntype PFXOut struct{ Lead PFXFlat }\n", Src: "PFXIn", Tgt: "PFXOut",
 			Conv: []string{"ignoreMissing"}, Extra: "\t// goverter:map Code Zip\n\tPFXInner(source *PFXPerson) *PFXFlat\n",
 			Fail: "field settings (map) on a method that another method bypasses"},
+		{Name: "fail_ignoremissing_ignorecase_ambiguous", Decls: "type PFXIn struct {\n\tFOO string\n\tFoo string\n\tN int\n}\ntype PFXOut struct {\n\tFoO string\n\tN int\n}\n", Src: "PFXIn", Tgt: "PFXOut",
+			Lines: []string{"matchIgnoreCase", "ignoreMissing"}, Fail: "several case-insensitive candidates are an error even with ignoreMissing"},
+		{Name: "fail_ignoremissing_automap_ambiguous", Decls: "type PFXIn struct {\n\tA PFXN\n\tB PFXN\n\tN int\n}\ntype PFXN struct{ Last string }\ntype PFXOut struct {\n\tLast string\n\tN int\n}\n", Src: "PFXIn", Tgt: "PFXOut",
+			Lines: []string{"autoMap A", "autoMap B", "ignoreMissing"}, Fail: "autoMap ambiguity is an error even with ignoreMissing"},
+		{Name: "ignoremissing_with_ignorecase", Decls: "type PFXIn struct {\n\tFOO string\n\tN int\n}\ntype PFXOut struct {\n\tFoo string\n\tN int\n\tGone int\n}\n", Src: "PFXIn", Tgt: "PFXOut",
+			Lines: []string{"matchIgnoreCase", "ignoreMissing"},
+			Pairs: map[string]*PairSpec{"PFXIn→PFXOut": {IgnoreMissing: true, IgnoreCase: true}}},
+		{Name: "fail_unexported_target_via_func", Decls: "type PFXIn struct{ Name string }\ntype PFXOut struct {\n\tName string\n\tsecret string\n}\nfunc PFXUpper(s string) string { return s }\n", Src: "PFXIn", Tgt: "PFXOut",
+			Lines: []string{"map Name secret | PFXUpper"}, Fail: "unexported target field written through map|FUNC from another package", Formats: []string{"struct", "function"}},
+		{Name: "fail_unexported_target_via_map", Decls: "type PFXIn struct{ Name string }\ntype PFXOut struct {\n\tName string\n\tsecret string\n}\n", Src: "PFXIn", Tgt: "PFXOut",
+			Lines: []string{"map Name secret"}, Fail: "unexported target field written through map from another package", Formats: []string{"struct", "function"}},
+		{Name: "ignoreunexported_same_package", Decls: "type PFXIn struct {\n\tName string\n\tstate string\n}\ntype PFXOut struct {\n\tName string\n\tstate string\n}\n", Src: "PFXIn", Tgt: "PFXOut",
+			Lines: []string{"ignoreUnexported"}, Formats: []string{"variable"},
+			Pairs: map[string]*PairSpec{"PFXIn→PFXOut": {IgnoreUnexported: true, Fields: map[string]*FieldSpec{"state": {Ignore: true}}}}},
+		{Name: "fail_path_behind_pointer_to_basic", Decls: "type PFXIn struct {\n\tPS *string\n\tPL *[]int\n\tN int\n}\ntype PFXOut struct {\n\tName string\n\tN int\n}\n", Src: "PFXIn", Tgt: "PFXOut",
+			Lines: []string{"map PS.X Name"}, Fail: "path continues behind a pointer to a non-struct"},
+		{Name: "fail_path_behind_pointer_to_slice", Decls: "type PFXIn struct {\n\tPL *[]int\n\tN int\n}\ntype PFXOut struct {\n\tName string\n\tN int\n}\n", Src: "PFXIn", Tgt: "PFXOut",
+			Lines: []string{"map PL.X.Y Name"}, Fail: "path continues behind a pointer to a non-struct"},
+		{Name: "underscore_fields", Decls: "type PFXIn struct {\n\tName string\n\t_rev int\n\t_deleted *bool\n}\ntype PFXOut struct {\n\tName string\n\t_rev int\n\t_deleted *bool\n}\n", Src: "PFXIn", Tgt: "PFXOut",
+			Formats: []string{"variable"}},
 		{Name: "fail_unexported_other_pkg", Decls: "type PFXIn struct {\n\tName string\n\thidden int\n}\ntype PFXOut struct {\n\tName string\n\thidden int\n}\n", Src: "PFXIn", Tgt: "PFXOut",
 			Fail: "unexported target field without ignoreUnexported", Formats: []string{"struct"}},
 	}
